@@ -19,7 +19,7 @@ class LifecycleMonitor(Monitor):
         self.accept_log = collections.defaultdict(list)
 
     def post_recv(self, conn, hdr, datagram, pre, result):
-        if result and conn.isServer:
+        if result is True and conn.isServer:
             self.last_accept[id(conn)] = self.w.k.now
             if hdr.pkt_type.value == PacketType.CHALLENGE_RESP.value:
                 self.challenge_ok.setdefault(id(conn), self.w.k.now)
@@ -32,7 +32,7 @@ class LifecycleMonitor(Monitor):
 class C10(UdpCheck):
     pid = "C10"
     budget = {"quick": 75, "thorough": 900}
-    ncases = {"quick": 600, "thorough": 40000}
+    ncases = {"quick": 1200, "thorough": 60000}
     rule = ("case = 1-6 clients with scripted lives (connect, send, disconnect, go silent, crash and restart from the same "
             "address while the old session is still connected or after it timed out, stall) x server-side disconnects x handler "
             "exceptions injected in any of starting/connect/message/update/disconnect/shutdown x shutdown at a random tick "
@@ -88,6 +88,10 @@ class C10(UdpCheck):
             ev = rng.choice(["starting", "connect", "connect", "message", "message", "update", "disconnect", "disconnect", "shutdown"])
             nth = 0 if ev in ("starting", "shutdown") else rng.randrange(0, 4) if ev != "update" else rng.randrange(0, int(dur * 30))
             plan.append({"op": "hraise", "t": 0.0, "event": ev, "nth": nth})
+        for j in range(rng.choice([0, 0, 1, 2])):
+            # the application kicks another client (and maybe stops the server) from inside an event handler
+            plan.append({"op": "hkick", "t": 0.0, "event": rng.choice(["disconnect", "disconnect", "message", "connect"]),
+                         "nth": rng.randrange(0, 3), "c": rng.randrange(n), "shutdown": rng.random() < 0.4})
         if rng.random() < 0.35:
             how = "stop" if cfg["entry"] == "twisted" and rng.random() < 0.7 else "ctxt"
             plan.append({"op": "shutdown", "t": round(1.0 + rng.random() * (dur - 1.5), 4), "how": how})
@@ -135,7 +139,7 @@ class C10(UdpCheck):
 
     def nontrivial(self, w, case):
         interesting = (sum(w.decider.counts.values()) or w.probes or w.shutdown_t is not None
-                       or any(op["op"] in ("crash", "hraise", "sdisconnect") for op in case["plan"]))
+                       or any(op["op"] in ("crash", "hraise", "sdisconnect", "hkick") for op in case["plan"]))
         return bool(interesting) and len(w.hev) >= 2
 
     def judge(self, w, case):
